@@ -1,7 +1,9 @@
 import AFModel.Passing
 import AFModel.WidthCfg
+import AFModel.PassRoutes
 import AFProofs.Lemmas.Persist
 import AFProofs.Lemmas.WidthCfg
+import AFProofs.Lemmas.PassRoutes
 import Mathlib.Algebra.Order.Field.Basic
 import Mathlib.Tactic.Linarith
 
@@ -485,5 +487,92 @@ example : chainLookup [dirA, dirB] (family (.node ['v', '.', 'P'] [])) ['a'] ['w
 example : chainLookup [dirA, dirB] (family clsQ) ['z'] ['w'] = none := by decide
 /-- hypotheses of `resolved_width_nonneg` hold for these directories -/
 example : configAbsNonneg (fun a b => decide (a ≤ b)) (0 : Int) [dirA, dirB] = true := by decide
+
+end AF.C12
+
+
+/-! ## the way through a result (`AFModel/PassRoutes.lean`): `Result.model`, `model_absolute`,
+`model_relative`, `model_bounded` -/
+
+namespace AF.C12
+open AF AF.PassRoutesL
+
+variable {V V' : Type}
+
+/-- **A value stored under a place of parameter i comes back at position i**: if every key is a
+place of its own parameter and of no other parameter, reading the path-keyed sample back through
+the groups of places returns the stored vector. -/
+theorem vectorOfKwargs_own (keys : List Path) (groups : List (List Path)) (v : List V)
+    (hlen : keys.length = groups.length) (hv : v.length = keys.length)
+    (hown : ∀ i (hi : i < keys.length), keys[i] ∈ groups[i]'(hlen ▸ hi))
+    (hother : ∀ i j (hi : i < keys.length) (hj : j < groups.length), i ≠ j → keys[i] ∉ groups[j]) :
+    vectorOfKwargs (keys.zip v) groups = v.map some := by
+  have hnd : keys.Nodup := by
+    unfold List.Nodup
+    rw [List.pairwise_iff_getElem]
+    intro i j hi hj hij heq
+    exact hother i j hi (hlen ▸ hj) (by omega) (heq ▸ hown j hj)
+  apply List.ext_getElem
+  · simp [vectorOfKwargs, hlen, hv]
+  · intro j h1 h2
+    have hjg : j < groups.length := by simpa [vectorOfKwargs] using h1
+    have hjk : j < keys.length := hlen ▸ hjg
+    have hjv : j < v.length := hv ▸ hjk
+    simp only [vectorOfKwargs, List.getElem_map]
+    apply findSome?_const
+    · intro p hp
+      cases hl : lookupPath (keys.zip v) p with
+      | none => exact Or.inl rfl
+      | some x =>
+        right
+        have hmem := lookupPath_mem keys v p x hl
+        obtain ⟨i, hi, hip⟩ := List.getElem_of_mem hmem
+        have hij : i = j := by
+          by_contra hne
+          exact hother i j hi hjg hne (hip ▸ hp)
+        subst hij
+        rw [← hip, lookupPath_zip_get keys v hnd hv.symm i hi hjv] at hl
+        exact hl.symm
+    · exact ⟨keys[j], hown j hjk, lookupPath_zip_get keys v hnd hv.symm j hjk hjv⟩
+
+/-- the decidable check the driver evaluates on every composition gives the two hypotheses -/
+theorem keysOwnGroups_spec (keys : List Path) (groups : List (List Path)) (h : keysOwnGroups keys groups = true) :
+    ∃ hlen : keys.length = groups.length,
+      (∀ i (hi : i < keys.length), keys[i] ∈ groups[i]'(hlen ▸ hi)) ∧
+      (∀ i j (hi : i < keys.length) (hj : j < groups.length), i ≠ j → keys[i] ∉ groups[j]) := by
+  simp only [keysOwnGroups, Bool.and_eq_true, beq_iff_eq, List.all_eq_true, List.mem_range] at h
+  obtain ⟨hlen, hall⟩ := h
+  refine ⟨hlen, ?_, ?_⟩
+  · intro i hi
+    have := hall i hi i (hlen ▸ hi)
+    simpa [List.getElem?_eq_getElem hi, List.getElem?_eq_getElem (hlen ▸ hi : i < groups.length)] using this
+  · intro i j hi hj hne
+    have := hall i hi j hj
+    simpa [List.getElem?_eq_getElem hi, List.getElem?_eq_getElem hj, hne] using this
+
+/-- **`Result.model` & co. hand prior passing the inferred vector itself, in parameter order**
+(for every composition whose sample keys are places of their own parameter only - evaluated by the
+driver on every generated composition). -/
+theorem result_vector_roundtrip (t : Node V') (v : List V) (hv : v.length = (uniquePaths t).length)
+    (hown : keysOwnGroups (uniquePaths t) (allPaths t) = true) :
+    resultVector t v = v.map some := by
+  obtain ⟨hlen, h1, h2⟩ := keysOwnGroups_spec _ _ hown
+  exact vectorOfKwargs_own (uniquePaths t) (allPaths t) v hlen hv h1 h2
+
+/-- hence the arguments built through a result are those built from the vector directly: every
+theorem above about `passArgsCfg` applies to `Result.model`, `model_absolute`, `model_relative`
+(median vector) and `model_bounded` (maximum likelihood vector) -/
+theorem result_route_same_arguments (po : PassOps V) (dflt z : V) (cs : List (Config V)) (mode : PassMode V)
+    (t : Node V') (olds : List (PD V)) (places : List (Place V)) (v : List V)
+    (hv : v.length = (uniquePaths t).length) (hown : keysOwnGroups (uniquePaths t) (allPaths t) = true) :
+    passArgsCfg po dflt cs mode t olds places ((resultVector t v).map (fun o => (o.getD z, z))) =
+      passArgsCfg po dflt cs mode t olds places (v.map (fun x => (x, z))) := by
+  rw [result_vector_roundtrip t v hv hown, List.map_map]
+  rfl
+
+/-- non-vacuity: the shared parameter 7 has two places; its key is its last place -/
+example : uniquePaths t₀ = [["g", "b"], ["h"]] ∧ allPaths t₀ = [[["g", "b"]], [["g", "a"], ["h"]]] ∧
+    keysOwnGroups (uniquePaths t₀) (allPaths t₀) = true ∧
+    resultVector t₀ [(-4 : Int), 6] = [some (-4), some 6] := by decide
 
 end AF.C12
